@@ -40,7 +40,7 @@ JSt(j) ==
 
 JReq(r) == [route |-> r.route, withCaller |-> r.withCaller, from |-> r.from, amt |-> r.amt, denom |-> r.denom,
             dom |-> r.dom, mint |-> r.mint, caller |-> r.caller, tok |-> r.tok, rcp |-> r.rcp,
-            hook |-> r.hook, gas |-> r.gas, maxfee |-> r.maxfee, meta |-> r.meta, to |-> r.to]
+            hook |-> r.hook, gas |-> r.gas, maxfee |-> r.maxfee, mfd |-> r.mfd, meta |-> r.meta, to |-> r.to]
 
 \* In app mode the internal route has no typed event: the request is the last bank transfer out of
 \* the orbiter account that is not the sweep to the dust collector.
